@@ -25,6 +25,7 @@ TABLES = V + '/_build/tables'
 WORK = V + '/_build/work'
 sys.path.insert(0, V + '/gen')
 import gens  # noqa: E402
+import oracle as ORC  # noqa: E402
 import mathlib as M  # noqa: E402
 
 GOENV = dict(os.environ, GOFLAGS='-mod=mod', GOPROXY='off', GOSUMDB='off', GOTOOLCHAIN='local',
@@ -346,6 +347,19 @@ def gen_C03(rng, tier):
         out.append((vline(dg, pk, M.Q + m, R8, S), 'msg+q'))
         for S2 in (0, 1, M.L - 1, (S + 1) % M.L, (S - 1) % M.L, rng.randrange(M.L)):
             out.append((vline(dg, pk, m, R8, S2), 'altered-S'))
+        # keys and nonce points with a small-order component: tuples that SATISFY the
+        # verification equation (and near misses), built from the specification
+        for T in sm[1:] if tier == 'thorough' else rng.sample(sm[1:], 3):
+            sk, rr = rng.randrange(1, M.L), rng.randrange(1, M.L)
+            A2 = M.ed_add(M.ed_mul(sk, M.B8), T)
+            for T2 in ((0, 1), rng.choice(sm[1:])):
+                R2 = M.ed_add(M.ed_mul(rr, M.B8), T2)
+                v = [R2[0], R2[1], A2[0], A2[1], m]
+                hm = ORC.poseidon_ex(v, 0, 1)[0] if dg == 'p' else ORC.mimc_hash(v, None)
+                S2 = (rr + 8 * hm * sk) % M.L
+                out.append((vline(dg, A2, m, R2, S2), 'mixed-order-key/' + ('equation-holds' if T2 == (0, 1) else 'R8-has-small-component')))
+                R3 = M.ed_add(M.ed_mul(rr, M.B8), M.ed_mul((-((8 * hm) % M.L)) % 8, T))
+                out.append((vline(dg, A2, m, R3, S2), 'mixed-order-key/shifted-R8'))
         # off-curve / random group elements
         out.append((vline(dg, pk, m, (R8[0], (R8[1] + 1) % M.Q), S), 'R8-off-curve'))
         out.append((vline(dg, (0, 1), m, R8, S), 'A=identity'))
@@ -425,7 +439,8 @@ def main():
     seed = int(os.environ.get('VERIF_SEED', '20260101'))
     rng = random.Random(seed * 1000003 + int(pid[1:]))
     t0 = time.time()
-    violations = []     # (description, replay dict)
+    violations = []     # (description, replay dict): concrete failing inputs
+    harmless = []       # correspondence broken although the property predicate still holds
     notes = []
 
     try:
@@ -509,8 +524,30 @@ def main():
             mism += m3
         # property predicates evaluated on the implementation's own outputs
         violations += predicates(pid, cases, impl)
+        # third voice: the specification evaluated independently (gen/oracle.py)
+        orc_cov, orc_bad = 0, []
+        impl_cmp = [re.sub(r' (MUTATED:\S+|REPEAT-DIFF)', '', x) for x in impl]
+        for i, (line, cls) in enumerate(cases):
+            if i >= len(impl_cmp):
+                break
+            e = ORC.oracle(line)
+            if e is not None:
+                orc_cov += 1
+                if e != impl_cmp[i]:
+                    orc_bad.append((i, line, impl_cmp[i], e))
+        extra['oracle_covered'] = orc_cov
+        extra['oracle_disagreements'] = len(orc_bad)
+        for (i, line, a_, e_) in orc_bad[:10]:
+            violations.append(('implementation differs from the specification value on: %s' % line[:200], dict(kind='spec-mismatch', lines=[line], impl=a_, spec=e_)))
+        bad_idx = set(i for (i, _, _, _) in orc_bad)
         for (i, line, a_, m_) in mism[:20]:
-            violations.append(('implementation and proven model disagree on: %s' % line[:200], dict(kind='mismatch', lines=[line], impl=a_, model=m_)))
+            if i in bad_idx:
+                continue
+            if ORC.oracle(line) == a_:
+                harmless.append(('model/implementation correspondence broken on %s (implementation still equals the specification value)' % line[:120],
+                                 dict(kind='correspondence-only', lines=[line], impl=a_, model=m_)))
+            else:
+                violations.append(('implementation and proven model disagree on: %s' % line[:200], dict(kind='mismatch', lines=[line], impl=a_, model=m_)))
     else:
         notes.append('driver not available: correspondence skipped')
         if b is not None:
@@ -528,6 +565,12 @@ def main():
             path = write_replay(pid, rp, 'proof')
             printed.append('VIOLATION property=%s replay=%s %s no-failing-input-found' % (pid, path, why.replace('\n', ' ')[:200]))
             status = 1
+    if not violations and harmless:
+        desc, rp = harmless[0]
+        rp = dict(rp, property=pid, description=desc, seed=seed, tier=tier, note='correspondence no longer checks; no input found on which the property itself fails')
+        path = write_replay(pid, rp, 'corr')
+        printed.append('VIOLATION property=%s replay=%s %s no-failing-input-found' % (pid, path, desc[:200]))
+        status = 1
     for desc, rp in violations[:10]:
         kn = [k for k in known if k.get('status') == 'known' and k.get('property') == pid and k.get('match') and k['match'] in json.dumps(rp)]
         if kn:
@@ -604,7 +647,7 @@ def predicates(pid, cases, impl):
                     bad(i, 'decompressed point is not a canonical curve point')
                 elif M.compress((x, y)) != bytes.fromhex(t[1][1:]):
                     bad(i, 'decompressed point does not compress back to the input')
-            if pid in ('C03', 'C14') and op.startswith('verify') and cls != 'honest' and not cls.startswith('verify-honest') and o != 'ERR':
+            if pid in ('C03', 'C14') and op.startswith('verify') and cls != 'honest' and not cls.startswith('verify-honest') and not cls.startswith('mixed-order-key') and o != 'ERR':
                 if pid == 'C14' or cls not in ('altered-S',):
                     bad(i, 'verification did not reject (%s) a %s signature' % (o, cls))
             if pid in ('C02', 'C03', 'C14') and (cls == 'honest' or cls.startswith('verify-honest')) and o != 'ok':
